@@ -147,6 +147,9 @@ def main():
         # part combinations: all present, all absent, each alone; labels none / rc (alpha/beta differ only in the label word)
         keep = {(True, True, True), (False, False, False), (True, False, False), (False, True, False), (False, False, True)}
         sshapes = [s for s in sshapes if (s[0], s[2], s[3]) in keep and s[1] in (None, 'rc')]
+    # repeated identifiers of the same kind (may be equal): plain core and the full shape
+    dup = [(0, 0), (1, 1)] if quick else [(0, 0), (1, 1), (2, 2), (0, 0, 0), (1, 0, 1)]
+    sshapes += [(e, lab, po, de, b) for b in dup for (e, lab, po, de) in ((False, None, False, False), (True, 'rc', True, True))]
     small = 9 if quick else 99
     P = lambda k: 10 ** k
     if quick:
@@ -166,10 +169,11 @@ def main():
     if quick:
         keep = {(True, True, True), (False, False, False), (True, False, False), (False, True, False), (False, False, True)}
         pshapes = [p for p in pshapes if (p[1], p[3], p[4]) in keep and p[2] in (None, 'rc') and (p[0] in (1, 3) or p[5] is None)]
-    ck.bounds = dict(semver='canonical shape X.Y.Z[-[epoch.E.][alpha|beta|rc.N.][post.P.][dev.D]][+ids]: all 2x4x2x2 part combinations, numbers: either all in [0,99], or one designated number (each position in turn) ranging over digit-length classes of the u64 range (quick: 1, 2, 10 (split at 2^32), 11 and 20 digits; thorough: every length 1..20) with the others in [0,%d]' % small + ' (E>=1), build ids %s' % (builds,),
-                     pep440='release length 1..3, epoch/pre/post/dev each absent or present; numbers: all in [0,99] or one designated number any u32 with the others small, local %s' % (locs,),
+    pshapes += [(r, e, lab, po, de, l) for l in dup for (r, e, lab, po, de) in ((1, False, None, False, False), (3, True, 'rc', True, True))]
+    ck.bounds = dict(semver='canonical shape X.Y.Z[-[epoch.E.][alpha|beta|rc.N.][post.P.][dev.D]][+ids]: all 2x4x2x2 part combinations, numbers: either all in [0,99], or one designated number (each position in turn) ranging over digit-length classes of the u64 range (quick: 1, 2, 10 (split at 2^32), 11 and 20 digits; thorough: every length 1..20) with the others in [0,%d]' % small + ' (E>=1), build ids %s' % (builds + dup,),
+                     pep440='release length 1..3, epoch/pre/post/dev each absent or present; numbers: all in [0,99] or one designated number any u32 with the others small, local %s' % (locs + dup,),
                      shapes=dict(semver=len(args), pep440=len(pshapes)))
-    ck.outside = ['non-canonical SemVer (lossy by design)', 'more than 2 build/local identifiers, string identifiers longer than 3',
+    ck.outside = ['non-canonical SemVer (lossy by design)', 'more than 2 (thorough 3) build/local identifiers, string identifiers longer than 3',
                   'string-level render/parse round trips are covered by C08/C09', 'the `zerv render` CLI wrapper']
     ck.assumptions = ['python models of Vec/Option/String/IndexMap/str::parse/to_string used by the conversion code (models_used)',
                       'schema validation (ZervSchema::new/push_*) is executed from MIR, not modelled']
